@@ -11,6 +11,8 @@ struct Case {
     username: Option<B>,
     password: Option<B>,
     url: Option<B>,
+    #[serde(default)]
+    quit: Option<bool>,
 }
 
 fn text(v: &Option<B>) -> Option<String> {
@@ -25,8 +27,10 @@ fn eval(c: &Case) -> Verdict {
         username: text(&c.username),
         password: text(&c.password),
         url: c.url.as_ref().map(|b| b.0.clone().into()),
-        quit: None,
+        quit: c.quit,
     };
+    // `quit` is an attribute helpers send to git; write_to() never sends it, so it must come back unset and must not change the message
+    let expect = Context { quit: None, ..ctx.clone() };
     let fields: Vec<(&str, &B)> = [("protocol", &c.protocol), ("host", &c.host), ("path", &c.path), ("username", &c.username), ("password", &c.password), ("url", &c.url)]
         .into_iter()
         .filter_map(|(k, v)| v.as_ref().map(|v| (k, v)))
@@ -46,6 +50,9 @@ fn eval(c: &Case) -> Verdict {
         for line in out[..out.len() - 1].split(|b| *b == b'\n') {
             let mut it = line.splitn(2, |b| *b == b'=');
             let (k, v) = (it.next().unwrap_or_default(), it.next());
+            if line.is_empty() {
+                return bad("empty-line", format!("the message contains an empty line (= end of message for a helper) before its end: {:?}", B::new(&out)));
+            }
             match fields.iter().find(|(fk, _)| fk.as_bytes() == k) {
                 Some((fk, fv)) if v == Some(&fv.0[..]) && !seen.contains(fk) => seen.push(fk),
                 _ => return bad("forged-attribute", format!("helper would read attribute line {:?} which is not a field of the context (output {:?})", B::new(line), B::new(&out))),
@@ -64,62 +71,76 @@ fn eval(c: &Case) -> Verdict {
             }
             match Context::from_bytes(&out) {
                 Err(e) => bad("decode", format!("{:?} does not decode: {e}", B::new(&out))),
-                Ok(back) if back == ctx => {
+                Ok(back) if back == expect => {
                     if fields.is_empty() {
                         ok_trivial("empty-context")
                     } else {
                         ok(format!("roundtrip-{}{}", fields.len(), if has_cr { "-cr" } else { "" }))
                     }
                 }
-                Ok(back) => bad("roundtrip", format!("wrote {:?}, decoded {back:?}, expected {ctx:?}", B::new(&out))),
+                Ok(back) => bad("roundtrip", format!("wrote {:?}, decoded {back:?}, expected {expect:?}", B::new(&out))),
             }
         }
     }
 }
 
 pub fn run(run: &'static Run) {
-    let text_vals: Vec<&[u8]> = if run.quick() {
-        vec![b"a", b"a=b", b"a\nb", b"a\rb", b"a\r", b"a\0b", b""]
+    let quick = run.quick();
+    // plain values (harmless), and special values: each of LF, NUL, CR alone, first, in the middle and LAST
+    let plain: Vec<&[u8]> = if quick { vec![b"a"] } else { vec![b"a", b"a=b", b""] };
+    let mut special: Vec<&[u8]> = vec![b"\n", b"\na", b"a\nb", b"a\n", b"\0", b"\0a", b"a\0b", b"a\0", b"\r", b"\ra", b"a\rb", b"a\r"];
+    if quick {
+        special.extend([&b"a=b"[..], b""]);
     } else {
-        vec![b"a", b"a=b", b"=", b"a\nb", b"a\rb", b"a\r", b"a\0b", "é".as_bytes(), b" ", b"", b"\r", b"\n"]
-    };
-    let mut bytes_vals = text_vals.clone();
-    bytes_vals.push(b"\xff"); // path and url are byte strings
-    // a non-UTF-8 byte together with each separator: validation must look at the bytes, not at a (failed) string conversion
-    bytes_vals.push(b"\xff\nhost=x");
-    bytes_vals.push(b"\xff\0");
-    bytes_vals.push(b"a\xff\r");
+        special.extend([&b"="[..], "é".as_bytes(), b" ", b"\r\n", b"a\r\n", b"\n\n", b"a\nhost=x"]);
+    }
+    // path and url are byte strings: a non-UTF-8 byte alone and together with each separator (validation must look at the bytes)
+    let mut special_bytes = special.clone();
+    special_bytes.extend([&b"\xff"[..], b"\xff\nhost=x", b"\xff\0", b"a\xff\r", b"\xff\n"]);
+    let max_special = run.pick(2usize, 3);
     run.rule(format!(
-        "each of protocol/host/username/password in {{absent}} + {} values, path/url additionally a non-UTF-8 byte: {:?}; all combinations of the six fields. \
-         non-trivial = context accepted, every attribute line seen by a helper is a verbatim field, and from_bytes() returns the same context",
-        text_vals.len(),
-        bytes_vals.iter().map(|v| B::new(v)).collect::<Vec<_>>()
+        "six fields protocol/host/path/username/password/url; every combination in which at most {max_special} fields take a special value and the others are absent or one of {:?}; \
+         special values (text fields) = LF, NUL, CR each alone / first / inner / LAST byte, plus others: {:?}; path/url additionally {:?}; x quit {{unset, true, false}}. \
+         oracle: the bytes written never contain an empty line before their end, every attribute line a helper reads is a verbatim field, a value with LF/NUL is refused, and an accepted context decodes to the same context (all fields). \
+         non-trivial = context accepted and fully round-tripped",
+        plain.iter().map(|v| B::new(v)).collect::<Vec<_>>(),
+        special.iter().map(|v| B::new(v)).collect::<Vec<_>>(),
+        special_bytes[special.len()..].iter().map(|v| B::new(v)).collect::<Vec<_>>()
     ));
-    run.assume("`quit` is a helper-to-git attribute and is never written by write_to(); it is left unset");
+    run.assume("`quit` is a helper-to-git attribute and is never written by write_to(): it is expected back unset whatever it was set to");
     run.assume("a context whose value contains CR may be refused (as git >= 2.48 does) but must never be sent in a form that decodes differently");
     run.budget_secs(run.pick(40.0, 600.0));
     run.sub(
         "context",
         |emit| {
-            let opt = |vals: &[&[u8]]| -> Vec<Option<B>> { std::iter::once(None).chain(vals.iter().map(|v| Some(B::new(v)))).collect() };
-            let t = opt(&text_vals);
-            let b = opt(&bytes_vals);
-            for protocol in &t {
-                for host in &t {
-                    for path in &b {
-                        for username in &t {
-                            for password in &t {
-                                for url in &b {
-                                    emit(Case { protocol: protocol.clone(), host: host.clone(), path: path.clone(), username: username.clone(), password: password.clone(), url: url.clone() });
-                                }
-                            }
-                        }
+            // field order: protocol, host, path, username, password, url; path (2) and url (5) are byte strings
+            fn rec(i: usize, n_special: usize, max: usize, cur: &mut Vec<Option<B>>, plain: &[&[u8]], special: &[&[u8]], special_bytes: &[&[u8]], thorough: bool, emit: &mut dyn FnMut(Case)) {
+                if i == 6 {
+                    let quits: &[Option<bool>] = if thorough && n_special > 2 { &[None] } else { &[None, Some(true), Some(false)] };
+                    for &quit in quits {
+                        emit(Case { protocol: cur[0].clone(), host: cur[1].clone(), path: cur[2].clone(), username: cur[3].clone(), password: cur[4].clone(), url: cur[5].clone(), quit });
+                    }
+                    return;
+                }
+                cur.push(None);
+                rec(i + 1, n_special, max, cur, plain, special, special_bytes, thorough, emit);
+                for v in plain {
+                    cur[i] = Some(B::new(v));
+                    rec(i + 1, n_special, max, cur, plain, special, special_bytes, thorough, emit);
+                }
+                if n_special < max {
+                    for v in if i == 2 || i == 5 { special_bytes } else { special } {
+                        cur[i] = Some(B::new(v));
+                        rec(i + 1, n_special + 1, max, cur, plain, special, special_bytes, thorough, emit);
                     }
                 }
+                cur.pop();
             }
+            rec(0, 0, max_special, &mut Vec::new(), &plain, &special, &special_bytes, !quick, emit);
         },
         eval,
     );
     run.require("values with NL/NUL were refused", run.outcome_count("refused-nl-or-nul") > 0);
     run.require("values with CR were presented", run.outcome_count("refused-cr") + run.outcome_count("roundtrip-1-cr") > 0);
+    run.require("contexts were accepted and round-tripped", run.outcome_count("roundtrip-6") > 0 && run.outcome_count("roundtrip-2") > 0);
 }
